@@ -55,6 +55,22 @@ CANARIES = [
     ('math_utils', 'S', r'this\.n >>= factor\.count;', 'this.n >>= factor.count + 1;', 'remove_factors'),
     ('planner_gates', 'S', r'if has_avx && has_fma \{', 'if has_avx || has_fma {', 'new'),
     ('dft', 'S', r'twiddle_index -= self\.twiddles\.len\(\);', 'twiddle_index -= 1;', 'perform_fft_immut'),
+    ('plan_avx', 'S', r'plan\.push_radix\(16\);', 'plan.push_radix(8);', 'plan_mixed_radix'),
+    ('plan_avx', 'S', r'verif_drain_incl\(&mut chain, 0, cached_index\)', 'verif_drain_excl(&mut chain, 0, cached_index)', 'replan_with_cache'),
+    ('plan_avx', 'S', r'96 => Some\(MixedRadixPlan::butterfly\(32, vec!\[3\]\)\)', '96 => Some(MixedRadixPlan::butterfly(32, vec![4]))', 'plan_mixed_radix_base'),
+    ('plan_avx', 'S', r'let min_factor2 = 2;', 'let min_factor2 = 1;', 'plan_bluesteins'),
+    ('plan_avx', 'S', r'7 => wrap_fft\(MixedRadix7xnAvx', '7 => wrap_fft(MixedRadix8xnAvx', 'construct_plan'),
+    ('avx_mixed_radix_f32', 'S', r'inplace_scratch_len: len \+ inner_outofplace_scratch,', 'inplace_scratch_len: len,', 'verif_gen_data'),
+    ('avx_mixed_radix_f64', 'S', r'let \(scratch, inner_scratch\) = scratch\.split_at_mut\(self\.len\(\)\);', 'let (scratch, inner_scratch) = scratch.split_at_mut(self.len() + 1);', 'perform_fft_inplace'),
+    ('avx_bluesteins', 'S', r'3 => verif_store_partial3_complex\(output,', '3 => verif_store_complex(output,', 'finalize_bluesteins'),
+    ('avx_raders', 'S', r'let \(scratch2, extra_scratch\) = scratch\.split_at_mut\(self\.len\(\)\);', 'let (scratch2, extra_scratch) = scratch.split_at_mut(self.len() + 2);', 'perform_fft_immut'),
+    ('sse_radix4', 'S', r'let twiddle_offset = num_vector_columns \* \(ROW_COUNT - 1\);', 'let twiddle_offset = num_vector_columns * ROW_COUNT;', 'perform_fft_immut'),
+    ('partial_factors', 'S', r'power3: self\.power3 - divisor\.power3,', 'power3: self.power3 - divisor.power2,', 'divide_by'),
+    ('prime_roots', 'S', r'divisor \+= 2;', 'divisor += 4;', 'distinct_prime_factors'),
+    ('array_utils', 'S', r'let output_index = y \+ \*rev \* height;', 'let output_index = y + *rev * width;', 'bitreversed_transpose'),
+    ('planner_dispatch', 'S', r'self\.plan_fft\(len, FftDirection::Inverse\)', 'self.plan_fft(len, FftDirection::Forward)', 'plan_fft_inverse'),
+    ('good_thomas', 'S', r'input_output_map\.push\(\(x \* height \+ y \* width\) % len\)', 'input_output_map.push(x * height + y * width)', 'new'),
+    ('avx_plumbing', 'P', r'self\.get_inplace_scratch_len\(\),', 'self.get_outofplace_scratch_len(),', 'process_with_scratch'),
 ]
 
 
